@@ -19,6 +19,7 @@ import dataclasses
 import gzip
 import hashlib
 import os
+import re
 import shutil
 import tempfile
 
@@ -32,7 +33,9 @@ RULE = ("registry of public API calls (text/number conversion, encodings, sequen
         "methods, table methods, stream reductions, field access / indexing / concatenation / write of lazily read chunks of every "
         "file format) x generated arguments; before/after deep byte snapshots of every argument + twin comparison for lazy chunks + "
         "twice-application equality; an EDGE variant pushes arguments just outside the preconditions (calls that raise must leave their "
-        "arguments unchanged too). Non-trivial = the arguments take a special path: a sign, '+', 'e', '.', a list-valued or "
+        "arguments unchanged too); a RESPELT variant writes text arguments (arrays, views, one column or cell of a file, text columns of "
+        "lazily read chunks) in another spelling of the same value — case, '+', leading zeros, blanks, exponent marker E/e/D/d, digit "
+        "grouping, decimal comma, base prefix, spellings of 'missing' — refused or accepted, the caller's text stays as written. Non-trivial = the arguments take a special path: a sign, '+', 'e', '.', a list-valued or "
         "genotype column, CRLF, no final newline, gzip, several chunks, an empty row, a strand")
 EXHAUSTIVE = {"quick": False, "thorough": False}
 MODEL_OPS = {"m_str_to_int", "m_merge", "m_bincount", "m_fresh"}
@@ -51,7 +54,7 @@ MANIFEST = {
             "heaps/arguments; read-only buffers are never changed by any program; instances frame_str_to_int_model, frame_str_to_float_model, "
             "frame_parse_split_fields_model, frame_genotype_model, frame_merge_model, frame_bincount_stream_model, frame_fresh_selection_model, frame_vcf_position_model; idempotent (second call on the heap the "
             "first left, by simulation under buffer renaming); get/set laws of the heap; refutations for the "
-            "variants without the upstream copy. The decision on the implementation is the snapshot registry: 230 public "
+            "variants without the upstream copy. The decision on the implementation is the snapshot registry: 245 public "
             "functions/methods x generated special-path arguments, before/after deep byte snapshots of every argument, twin "
             "comparison of lazily read chunks, bytes written before/after field access, twice-application equality.",
     "note": "partial: the Lean theorems assume the view/copy tags of NumPy steps (assumption list in evidence); what detects a real "
@@ -720,6 +723,21 @@ def chunk_column_fn(ch, j, sel, name):
         return ("raised", type(e).__name__)
 
 
+NUMFNS = ["str_to_int", "str_to_float", "str_to_int_with_missing", "str_to_float_with_missing"]
+
+
+def chunk_columns_fn(ch, name):
+    """a text->number function applied to EVERY text column of a lazily read chunk, the column object passed exactly as the chunk
+    hands it out (a user parsing a text column himself, e.g. QUAL of a VCF file): parsed or refused, the chunk reads as before"""
+    out = []
+    for col in _text_columns(ch):
+        try:
+            out.append(snap(apply_textfn(col, name), result=True))
+        except Exception as e:
+            out.append(("raised", type(e).__name__))
+    return out
+
+
 def replace_then_reread(ch, j, bump):
     """bnp.replace(chunk, <one field>=...) then every OTHER field read twice on the new table and once more on the chunk"""
     bnp = B()
@@ -928,6 +946,7 @@ def registry2(R):
     # --- util
     R["textfn(chunk column)"] = (lambda ch, j, sel, name: chunk_column_fn(ch, j, sel, name), ["chunk+col+fn"])
     R["replace(chunk, field) then reread"] = (lambda ch, j, bump: replace_then_reread(ch, j, bump), ["chunk+field"])
+    R["numfn(every text column of a chunk)"] = (lambda ch, name: chunk_columns_fn(ch, name), ["chunk+numfn"])
     R["selection: field, write, fields"] = (lambda ch, sel, j: field_write_fields(ch, sel, j), ["chunk+sel+field"])
     R["Genome.from_dict(d).with_ignored_added"] = (lambda d, names: snap(bnp.Genome.from_dict(d).with_ignored_added(names)), ["sizes_dict+names"])
     R["genome.with_ignored_added"] = (lambda g, names: snap(g.with_ignored_added(names)), ["genome_u+names"])
@@ -977,6 +996,123 @@ def _float_str(rng):
     if rng.random() < 0.4:
         return sign + m + "e" + rng.choice(["", "-", "+"]) + str(rng.choice([0, 1, 2, 5, 10]))
     return sign + m
+
+
+MISSING_SPELLINGS = ["NA", "na", "N/A", "nan", "NaN", "NAN", "null", "None", "-", "*", "", "?", ".."]
+
+
+_NUMBER = re.compile(r"^[+-]?(\d+\.?\d*|\.\d+)([eE][+-]?\d+)?$")
+
+
+def respellings(t):
+    """the SAME text value in the other spellings that other readers of the same kind of text accept (Python's int()/float(), C
+    strtod/strtol, R, awk, spreadsheet exports): case, explicit sign, leading zeros, bare / trailing decimal point, exponent
+    marker E / e / D / d, exponent sign and zeros, an exponent on a plain number, surrounding blanks, digit grouping, decimal
+    comma, base prefixes, the spellings of a missing value. The package may refuse a spelling — then it must refuse WITHOUT
+    touching its argument — or accept it — then it must not normalise the caller's text in place."""
+    out = []
+    if t.upper() != t:
+        out.append(t.upper())
+    if t.lower() != t:
+        out.append(t.lower())
+    if t.swapcase() not in (t, t.upper(), t.lower()):
+        out.append(t.swapcase())
+    if t.capitalize() not in (t, t.upper(), t.lower()):
+        out.append(t.capitalize())
+    if t in (".", "", "*"):
+        out += [m for m in MISSING_SPELLINGS if m != t]
+    body = t.lstrip("+-")
+    sign = t[:len(t) - len(body)]
+    numeric = _NUMBER.match(t) is not None
+    if numeric:
+        if not sign:
+            out.append("+" + t)
+        if sign == "+":
+            out.append(body)
+        out += [sign + "0" + body, sign + "000" + body, " " + t, t + " ", "  " + t + "  ", sign + " " + body]
+        low = body.lower()
+        if "e" not in low:
+            out += [t + "E0", t + "e0", t + "E+00", t + "E-0", t + "e+0", t + "D0", t + "d+00"]
+            if "." not in body:
+                out += [t + ".", t + ".0", t + ".E0", "{}0x{:x}".format(sign, int(body)), "{}0X{:X}".format(sign, int(body)),
+                        "{}0o{:o}".format(sign, int(body)), t + "L", t + "f"]
+                if len(body) > 1:
+                    out += [sign + body[:-1] + "E1" if body.endswith("0") else sign + body[:-1] + "." + body[-1] + "E1",
+                            sign + body[0] + "_" + body[1:]]
+                if len(body) > 3:
+                    out += [sign + body[:-3] + "," + body[-3:], sign + body[:-3] + " " + body[-3:], sign + body[:-3] + "'" + body[-3:]]
+            else:
+                out += [t.replace(".", ","), t + "0", t + "f", t + "F"]
+                if body.startswith("0.") and len(body) > 2:
+                    out.append(sign + body[1:])            # .5
+                if body.endswith(".0") and len(body) > 2:
+                    out.append(sign + body[:-1])           # 7.
+        else:
+            i = low.index("e")
+            m, e = body[:i], body[i + 1:]
+            es = e[:1] if e[:1] in "+-" else ""
+            ed = e[len(es):]
+            for mark in "EeDd":
+                out += [sign + m + mark + e, sign + m + mark + es + "0" + ed, sign + m + mark + es + "00" + ed]
+                if not es:
+                    out.append(sign + m + mark + "+" + ed)
+                if es == "+":
+                    out.append(sign + m + mark + ed)
+            out += [sign + m + " e" + e, sign + m + "e " + e, sign + m + "*10^" + e, sign + m + "×10^" + e]
+            if "." in m:
+                out.append(sign + m.replace(".", ",") + "e" + e)
+    return [x for x in dict.fromkeys(out) if x != t]
+
+
+def respell(t, rng):
+    alts = respellings(t)
+    return rng.choice(alts) if alts else t
+
+
+def respell_spec(s, rng, p=0.5):
+    """a text argument with some of its rows (at least one, where possible) written in another spelling of the same value"""
+    if not isinstance(s, dict):
+        return s
+    k = s.get("k")
+    if k == "strs" and s["rows"]:
+        rows = list(s["rows"])
+        must = rng.randrange(len(rows))
+        return dict(s, rows=[respell(r, rng) if (i == must or rng.random() < p) else r for i, r in enumerate(rows)])
+    if k == "str":
+        return dict(s, s=respell(s["s"], rng))
+    if k == "py" and isinstance(s["v"], str):
+        return dict(s, v=respell(s["v"], rng))
+    if k == "list":
+        return dict(s, items=[respell_spec(x, rng, p) for x in s["items"]])
+    if k == "table":
+        cols = dict(s["cols"])
+        names = [n for n, c in cols.items() if isinstance(c, dict) and c.get("k") == "strs"]
+        if names:
+            n = rng.choice(names)
+            cols[n] = respell_spec(cols[n], rng, p)
+        return dict(s, cols=cols)
+    if k in ("gintervals", "glocations", "track"):
+        return dict(s, table=respell_spec(s["table"], rng, p))
+    if k in ("file", "path") and s.get("fmt") != "bam" and s.get("text"):
+        # ONE column of the file (the same one in every record line), or one single cell
+        nl = "\r\n" if "\r\n" in s["text"] else "\n"
+        lines = s["text"].split(nl)
+        body = [i for i, l in enumerate(lines) if l and not l.startswith(("#", "@", ">", "+"))]
+        if not body:
+            return s
+        width = max(len(lines[i].split("\t")) for i in body)
+        j = rng.randrange(width)
+        single = rng.choice(body) if rng.random() < 0.3 else None
+        for i in body:
+            cells = lines[i].split("\t")
+            if j < len(cells) and (single is None or single == i) and (single == i or rng.random() < 0.8):
+                parts = cells[j].split(",") if rng.random() < 0.5 else [cells[j]]      # list-valued cells: one element
+                q = rng.randrange(len(parts))
+                parts[q] = respell(parts[q], rng).replace("\t", " ")
+                cells[j] = ",".join(parts)
+                lines[i] = "\t".join(cells)
+        return dict(s, text=nl.join(lines))
+    return s
 
 
 def _dna(rng, n=None, alphabet="ACGT", lower=False):
@@ -1082,7 +1218,7 @@ def file_spec(rng, fmt=None):
         for c, a, b in rows:
             l = [c, str(a), str(b)]
             if kind != "bed3":
-                l += [rng.choice([_word(rng).replace(",", "") or "n", "-12", "+4", "-0.5"]), rng.choice(["0", "1000", "-5", "+7", "."]) if kind == "bed6" else rng.choice(["0", "960"]), rng.choice("+-.")]
+                l += [rng.choice([_word(rng).replace(",", "") or "n", "-12", "+4", "-0.5", "1E-5", "2e3"]), rng.choice(["0", "1000", "-5", "+7", "."]) if kind == "bed6" else rng.choice(["0", "960"]), rng.choice("+-.")]
             if kind == "bed12":
                 k = rng.choice([1, 2, 3])
                 tc = rng.choice(["", ","])
@@ -1107,7 +1243,7 @@ def file_spec(rng, fmt=None):
 
         def cell(kind, i):
             if kind == "str":
-                return rng.choice(["r%d" % i, "-4", "+2"])
+                return rng.choice(["r%d" % i, "-4", "+2", "3E2", "1e-3"])
             if kind == "bools":
                 return "".join(rng.choice("01") for _ in range(rng.choice([1, 3, 4])))
             if kind == "ints":
@@ -1136,7 +1272,7 @@ def file_spec(rng, fmt=None):
         lines = head + ["\t".join(cols)]
         for c, a, b in sorted(rows):
             info = rng.choice(["DP=3", "DP=10;AF=0.5", "AF=1e-3;DB", ".", "DB;DP=-1"])
-            l = [c, str(a + 1), rng.choice([".", "rs1"]), rng.choice("ACGT"), rng.choice(["A", "C", "G,T"]), rng.choice([".", "50", "9.5"]), rng.choice(["PASS", "."]), info]
+            l = [c, str(a + 1), rng.choice([".", "rs1"]), rng.choice("ACGT"), rng.choice(["A", "C", "G,T"]), rng.choice([".", "50", "9.5", "1e3", "2.5E1"]), rng.choice(["PASS", "."]), info]
             if samples:
                 sep = "|" if phased else rng.choice("|/")
                 l += ["GT"] + [rng.choice("01.") + (sep) + rng.choice("01.") for _ in range(samples)]
@@ -1541,6 +1677,8 @@ def gen_args(kind, rng):
         return [{"k": "str", "s": _dna(rng, rng.choice([1, 4, 9, 12]), alphabet="ACGTNacgtn")}]
     if kind == "flat_dna_enc+k":
         return [{"k": "str", "s": _dna(rng, rng.choice([4, 9, 12])), "enc": "DNA"}, py(rng.choice([1, 2, 3]))]
+    if kind == "chunk+numfn":
+        return [file_spec(rng, fmt=rng.choice(["vcf", "vcf", "bed", "tsv", "gff", "gtf", "narrowPeak", "sam", "pairs"] + FORMATS)), py(rng.choice(NUMFNS))]
     if kind == "chunk+col+fn":
         return [file_spec(rng), py(rng.randrange(6)), py(rng.choice(["none", "none", "slice", "mask", "ints"])), py(rng.choice(TEXTFNS))]
     if kind in ("sizes_dict+names", "sizes_dict_u", "genome_u+names", "genome_u+names+intervals", "genome_u+intervals"):
@@ -1626,7 +1764,7 @@ def cases(tier, rng):
     per = 250 if big else 20
     for name, (fn, kinds) in R.items():
         for kind in kinds:
-            reps = per * (4 if kind in ("chunk", "chunks") else 8 if kind in ("chunk+program", "chunk+col+fn", "chunk+field", "chunk+sel+field") else 1)
+            reps = per * (4 if kind in ("chunk", "chunks") else 8 if kind in ("chunk+program", "chunk+col+fn", "chunk+field", "chunk+sel+field", "chunk+numfn") else 1)
             for _ in range(reps):
                 a1 = gen_args(kind, rng)
                 variant = rng.choice(["plain", "plain", "views", "fresh:slice", "fresh:mask", "fresh:ints", "readonly", "empty", "edge", "edge"])
@@ -1637,6 +1775,32 @@ def cases(tier, rng):
                 yield {"op": "call", "fn": name, "gen": kind, "args": a1,
                        "args2": [same_shape_spec(x) for x in a1] if rng.random() < 0.6 else gen_args(kind, rng),
                        "variant": variant}
+    # ANOTHER SPELLING of the same text (case, '+', leading zeros, blanks, exponent marker E/e/D/d, exponent on a plain number,
+    # digit grouping, decimal comma, base prefix, spellings of "missing"): a call that refuses the spelling — or one day accepts
+    # it — leaves the caller's text as it is. Dense for the text->number functions (plain arrays, views of a larger base, and the
+    # text columns of lazily read chunks), a few for every other callable that takes text
+    def texty(a):
+        return isinstance(a, dict) and (a.get("k") in ("strs", "str", "file", "path", "gintervals", "glocations", "track") or
+                                        (a.get("k") == "table" and any(isinstance(c, dict) and c.get("k") == "strs" for c in a["cols"].values())) or
+                                        (a.get("k") == "list" and any(texty(x) for x in a["items"])))
+    dense = {"str_to_int", "str_to_float", "str_to_int_with_missing", "str_to_float_with_missing", "numfn(every text column of a chunk)",
+             "textfn(chunk column)"}
+    for name, (fn, kinds) in R.items():
+        for kind in kinds:
+            reps = ((250 if big else 40) * (3 if kind.startswith("chunk") else 1)) if name in dense else (8 if big else 1)
+            for _ in range(reps):
+                a1 = gen_args(kind, rng)
+                idx = [i for i, a in enumerate(a1) if texty(a)]
+                if not idx:
+                    break
+                must = rng.choice(idx)
+                a2 = [respell_spec(a, rng) if (i == must or (i in idx and rng.random() < 0.3)) else a for i, a in enumerate(a1)]
+                if a2 == a1:
+                    continue
+                c = {"op": "call", "fn": name, "gen": kind, "args": a2, "variant": "edge", "respelt": True}
+                if rng.random() < 0.3:
+                    c["views"] = True
+                yield c
     # routines that are also executed in the Lean heap model
     for _ in range(200 if big else 40):
         yield {"op": "m_str_to_int", "rows": [_int_str(rng) for _ in range(rng.choice([1, 2, 3, 6]))]}
@@ -1743,6 +1907,12 @@ def edge_spec(s, rng):
     if not isinstance(s, dict):
         return s
     k = s.get("k")
+    if k in ("strs", "str") and rng.random() < 0.4:
+        # another spelling of the same value (upper-case exponent, explicit '+', leading zeros, blanks, ...): refused or accepted,
+        # the caller's text stays as it is
+        r = respell_spec(s, rng, p=0.3)
+        if r != s:
+            return r
     if k == "strs" and s["rows"]:
         rows = list(s["rows"])
         i = rng.randrange(len(rows))
@@ -1817,11 +1987,15 @@ def edge_spec(s, rng):
         if isinstance(v, int):
             return dict(s, v=rng.choice([0, -1, v + 1000, 10 ** 6]))
         if isinstance(v, str):
-            return dict(s, v=rng.choice(["", v + "x", "é", v * 2]))
+            return dict(s, v=rng.choice(["", v + "x", "é", v * 2] + respellings(v)[:6]))
         if isinstance(v, list) and v:
             return dict(s, v=v + [v[0]] if rng.random() < 0.5 else v[:-1])
         return s
     if k in ("file", "path") and s.get("fmt") != "bam" and s.get("text"):
+        if rng.random() < 0.3:
+            r = respell_spec(s, rng)
+            if r != s:
+                return r
         lines = s["text"].split("\n")
         body = [i for i, l in enumerate(lines) if l and not l.startswith(("#", "@", ">", "+"))]
         if body:
@@ -2093,7 +2267,7 @@ def impl(c):
             if c.get("variant") == "edge":
                 def thunk():
                     try:
-                        return observe(fn, c["args"], variant="edge", specs2=c.get("args2"))
+                        return observe(fn, c["args"], views=bool(c.get("views")), variant="edge", specs2=c.get("args2"))
                     except Unknown as e:
                         return {"err": "harness:unsnapshotable:" + str(e)}
                 return _in_child(thunk)
